@@ -34,6 +34,10 @@ struct TList {
 	static bool rRemove(R & r, const Handle & h) { return r.remove(h); }
 	static void setTarget(R & r, T & t) { r.setCallbackList(t); }
 	static void trigger(T & t) { t(1); }
+#ifndef VERIF_NO_PRIVATE
+	static const void * targetPtr(R & r) { return r.callbackList; }
+	static size_t items(R & r) { return r.itemList.size(); }
+#endif
 };
 template <typename Th>
 struct TDisp {
@@ -48,6 +52,10 @@ struct TDisp {
 	static bool rRemove(R & r, const Handle & h) { return r.removeListener(3, h); }
 	static void setTarget(R & r, T & t) { r.setDispatcher(t); }
 	static void trigger(T & t) { t.dispatch(3, 1); }
+#ifndef VERIF_NO_PRIVATE
+	static const void * targetPtr(R & r) { return r.dispatcher; }
+	static size_t items(R & r) { return r.itemList.size(); }
+#endif
 };
 template <typename Th>
 struct TQueue {
@@ -62,6 +70,10 @@ struct TQueue {
 	static bool rRemove(R & r, const Handle & h) { return r.removeListener(3, h); }
 	static void setTarget(R & r, T & t) { r.setDispatcher(t); }
 	static void trigger(T & t) { t.enqueue(3, 1); t.process(); }
+#ifndef VERIF_NO_PRIVATE
+	static const void * targetPtr(R & r) { return r.dispatcher; }
+	static size_t items(R & r) { return r.itemList.size(); }
+#endif
 };
 
 struct Cfg { int K = 3; };
@@ -209,6 +221,10 @@ struct Harness {
 			if(!mr[i].alive) { k += "-|"; continue; }
 			k += fmt("R%d%s:", mr[i].target, mr[i].movedFrom ? "m" : "");
 			for(int id : mr[i].owned) k += fmt("%d,", rn(id));
+#ifndef VERIF_NO_PRIVATE
+			// implementation snapshot: which target the remover really points at, how many items it really records
+			{ const void * tp = A::targetPtr(*rem[i]); k += fmt(";i%d.%zu", tp == (const void *)target[0] ? 0 : tp == (const void *)target[1] ? 1 : -1, A::items(*rem[i])); }
+#endif
 			k += "|";
 		}
 		for(auto & l : limbo) { k += "L:"; for(int r : l.removers) k += fmt("%d,", r); k += ";"; }
@@ -247,7 +263,7 @@ static void addUnit(const std::string & name, int minTier, Cfg cfg, int dq, int 
 	Unit u; u.name = name; u.minTier = minTier;
 	u.run = [=](Ctx & ctx, UnitReport & rep, int tier) {
 		Harness<A> h(ctx, cfg);
-		BfsOptions o; o.maxDepth = tier ? dt : dq; o.innerBudget = 0;
+		BfsOptions o; o.keyIncludesLastOp = true; o.maxDepth = tier ? dt : dq; o.innerBudget = 0;
 		Bfs b(ctx, o);
 		b.run([&](Bfs & bb) { h.body(bb); }, [&]() { h.after(); });
 		fillBfsReport(rep, b.res);
